@@ -99,6 +99,10 @@ func (env *c02env) build(t *Sexp) *fun.Iterator[int] {
 		return fun.Generator(func(ctx context.Context) (int, error) {
 			idx++
 			if idx >= len(a) {
+				if len(a)%2 == 1 {
+					// a generator may report exhaustion with a wrapped io.EOF: normal termination
+					return 0, fmt.Errorf("generator exhausted: %w", io.EOF)
+				}
 				return 0, io.EOF
 			}
 			if err := env.errOf(a[idx]); err != nil {
@@ -156,22 +160,52 @@ func (env *c02env) build(t *Sexp) *fun.Iterator[int] {
 			parts = append(parts, x.Atom)
 		}
 		out := fun.SliceIterator([]int{})
-		if err := out.UnmarshalJSON([]byte("[" + strings.Join(parts, ",") + "]")); err != nil {
+		doc := c02pad([]byte("[" + strings.Join(parts, ",") + "]"))
+		if err := out.UnmarshalJSON(doc); err != nil {
 			panic(err)
 		}
+		c02scribble(doc) // the caller's buffer is the caller's again once UnmarshalJSON has returned
 		return out
 	case "jsonrt":
 		data, err := env.build(a[0]).MarshalJSON()
 		if err != nil {
 			panic(err)
 		}
+		c02otherMarshal() // the bytes returned belong to the caller: a later MarshalJSON must not touch them
 		out := fun.SliceIterator([]int{})
-		if err := out.UnmarshalJSON(data); err != nil {
+		doc := c02pad(data)
+		if err := out.UnmarshalJSON(doc); err != nil {
 			panic(err)
 		}
+		c02scribble(doc)
 		return out
 	}
 	panic("bad-tree " + t.String())
+}
+
+// c02pad inserts JSON whitespace after the first comma (or before the closing bracket) so that the
+// document is longer than any decoder's first read-ahead chunk; the values are unchanged
+func c02pad(doc []byte) []byte {
+	pad := strings.Repeat(" ", 1500)
+	if i := strings.IndexByte(string(doc), ','); i >= 0 {
+		return []byte(string(doc[:i+1]) + pad + string(doc[i+1:]))
+	}
+	if n := len(doc); n > 0 && doc[n-1] == ']' {
+		return []byte(string(doc[:n-1]) + pad + "]")
+	}
+	return doc
+}
+
+func c02scribble(doc []byte) {
+	for i := range doc {
+		doc[i] = '7'
+	}
+}
+
+// c02otherMarshal: an unrelated MarshalJSON call between obtaining a result and using it
+func c02otherMarshal() {
+	_, _ = fun.SliceIterator([]string{"alpha", "beta", "gamma", "delta", "epsilon", "zeta", "eta", "theta"}).MarshalJSON()
+	_, _ = fun.SliceIterator([]int{77777, 88888, 99999, 77777, 88888, 99999, 77777, 88888, 99999}).MarshalJSON()
 }
 
 func (env *c02env) evStr(v int, err error) string {
@@ -229,6 +263,7 @@ func c02case(s *Sexp) string {
 		if err != nil {
 			return "err"
 		}
+		c02otherMarshal()
 		return string(b)
 	case "reduce":
 		a := cons.Args()
